@@ -87,8 +87,12 @@ def body(run):
                 else:
                     vals = [float(src[0, u, v]) for u in range(r - kshape[0] // 2, r + kshape[0] // 2 + 1) for v in range(c - kshape[1] // 2, c + kshape[1] // 2 + 1)
                             if 0 <= u < sm.shape[0] and 0 <= v < sm.shape[1] and sm[u, v]]
-                degenerate = len(vals) < 2 or len(set(vals)) < 2
-            except Exception:
+                # (one isolated source pixel spread over 2 x 2 processing pixels by the average re-projection gives values equal up to the rounding
+                # of the weights: a constant source all the same)
+                degenerate = len(vals) < 2 or (max(vals) - min(vals)) <= 1e-5 * max(1.0, abs(sum(vals) / len(vals)))
+            except Exception as ex_:
+                import sys as _sys
+                print('classifier error:', type(ex_).__name__, ex_, file=_sys.stderr)
                 degenerate = False
         # gain-blk-offset normalises each block by std(ref) / std(src) over its jointly valid pixels: a block with fewer than two of them
         # (or a single source value) has no normalisation (0 / 0): classified (finding D16)
@@ -171,7 +175,6 @@ def body(run):
             run.add_violation('a valid source pixel is invalid in the corrected image although the reference is valid there and the data are positive', desc,
                               observed=dict(pixel=[r, c], n=int(lost.sum())), signature=dict(kind='mask-lost', model=model, cause=cause))
     # ---- bands with different footprints, several blocks: the validity of EACH corrected band is the validity of that source band
-    from harness import impl_e2e as e2e
     for k in range(run.scale(2, 8)):
         model = ['gain', 'gain-blk-offset'][k % 2]
         bc = e2e.band_footprints_case(run.work, rng, model=model, tag='bf', threads=[2, 1][k % 2])
